@@ -98,7 +98,7 @@ class C30(Check):
     assumptions = ["inputs whose result the statement does not determine are not generated: GET/HEAD with a body, header values outside latin-1 "
                    "or with CR/LF or surrounding whitespace, multipart forms, a body for HEAD responses",
                    "server-side query / form arguments are read the way a WSGI application does: urllib.parse.parse_qsl(keep_blank_values=True)"]
-    required_probes = ["fargs", "data", "body", "qargs", "error", "stream", "unicode-path", "partial-delivery", "bodyless-without-length-then-another", "error-header", "query-in-path"]
+    required_probes = ["fargs", "data", "body", "qargs", "error", "stream", "unicode-path", "partial-delivery", "bodyless-without-length-then-another", "error-header", "query-in-path", "environ-checked-against-earlier-request"]
     quick_runs = 8000
     thorough_runs = 400000
     shrink_fields = ["schedule", "reqs"]
@@ -231,6 +231,17 @@ class C30(Check):
                 key = "HTTP_" + k.upper().replace("-", "_")
                 if env.get(key) != v:
                     return bad("headers", "header %s = %r != %r" % (k, env.get(key), v))
+            # a consistent environment: nothing left over from an earlier request on the same connection
+            mine = set(k.upper().replace("-", "_") for k, v in rq["headers"])
+            for prev in reqs[:i]:
+                for k, v in prev["headers"]:
+                    key = k.upper().replace("-", "_")
+                    if key not in mine and ("HTTP_" + key) in env:
+                        return bad("environ", "environment carries header %s = %r of an earlier request" % (k, env.get("HTTP_" + key)))
+                out.probe("environ-checked-against-earlier-request")
+            if rq["mode"] == "none" and (env.get("CONTENT_TYPE") or env.get("HTTP_CONTENT_TYPE") or (env.get("HTTP_CONTENT_LENGTH") or "0") != "0"):
+                return bad("environ", "a request without a body is presented with content type %r / %r, length %r"
+                           % (env.get("CONTENT_TYPE"), env.get("HTTP_CONTENT_TYPE"), env.get("HTTP_CONTENT_LENGTH")))
             mode = rq["mode"]
             if mode == "body":
                 if body != bytes(rq["body"]) or env.get("CONTENT_LENGTH") != str(len(rq["body"])):
